@@ -199,7 +199,10 @@ theorem calcSalary_nonneg (p : Params) (hp : 0 < p.rewardPrecision) (total votes
     0 ≤ calcSalary p total votes tv n := by
   unfold calcSalary
   simp only
-  have h := Int.emod_le hr (a := if tv = 0 then total / (n : Int) else total * votes / tv) (b := p.rewardPrecision)
+  generalize (if tv = 0 then total / (n : Int) else total * votes / tv) = r at hr ⊢
+  have h1 := Int.emod_def r p.rewardPrecision
+  have h2 := Int.ediv_nonneg hr (Int.le_of_lt hp)
+  have h3 : 0 ≤ p.rewardPrecision * (r / p.rewardPrecision) := Int.mul_nonneg (Int.le_of_lt hp) h2
   omega
 
 /-- Σ ⌊total·vᵢ/tv⌋ · tv ≤ total · Σ vᵢ -/
@@ -268,7 +271,6 @@ theorem salaryTotal_le_total (p : Params) (hp : 0 < p.rewardPrecision) (total : 
       have hk : (0 : Int) < ((k + 1 : Nat) : Int) := by omega
       have h2 : total / ((k + 1 : Nat) : Int) * ((k + 1 : Nat) : Int) ≤ total := Int.ediv_mul_le _ (Int.ne_of_gt hk)
       rw [Int.mul_comm] at h1
-      rw [hl]
       omega
   · have hnn : 0 ≤ totalVotes nodes := by
       unfold totalVotes
@@ -301,5 +303,180 @@ theorem salaryTotal_nonneg (p : Params) (hp : 0 < p.rewardPrecision) (total : In
   · exact Int.ediv_nonneg ht (by omega)
   · rename_i htv
     exact Int.ediv_nonneg (Int.mul_nonneg ht (hv n hn)) hnn
+
+/-! ### how much the roundings can withhold -/
+
+theorem calcSalary_ge_raw (p : Params) (hp : 0 < p.rewardPrecision) (total votes tv : Int) (n : Nat) :
+    (if tv = 0 then total / (n : Int) else total * votes / tv) - (p.rewardPrecision - 1) ≤ calcSalary p total votes tv n := by
+  unfold calcSalary
+  simp only
+  have := Int.emod_lt_of_pos (if tv = 0 then total / (n : Int) else total * votes / tv) hp
+  omega
+
+/-- total·Σvᵢ + n ≤ (Σ⌊total·vᵢ/tv⌋ + n)·tv -/
+theorem floorShares_ge (total tv : Int) (htv : 0 < tv) : ∀ l : List (Nat × Int),
+    total * (l.map (·.2)).sum + (l.length : Int) ≤ ((l.map fun n => total * n.2 / tv).sum + (l.length : Int)) * tv := by
+  intro l
+  induction l with
+  | nil => simp
+  | cons n r ih =>
+    simp only [List.map_cons, List.sum_cons, List.length_cons]
+    have h1 : total * n.2 < (total * n.2 / tv + 1) * tv := Int.lt_ediv_add_one_mul_self _ htv
+    have e1 : ((r.length + 1 : Nat) : Int) = (r.length : Int) + 1 := by omega
+    rw [e1, Int.mul_add]
+    have e2 : (total * n.2 / tv + (r.map fun n => total * n.2 / tv).sum + ((r.length : Int) + 1)) * tv =
+        (total * n.2 / tv + 1) * tv + ((r.map fun n => total * n.2 / tv).sum + (r.length : Int)) * tv := by
+      rw [← Int.add_mul]; congr 1; omega
+    rw [e2]
+    omega
+
+theorem sum_sub_const {α : Type} (f : α → Int) (k : Int) : ∀ l : List α,
+    (l.map fun x => f x - k).sum = (l.map f).sum - (l.length : Int) * k := by
+  intro l
+  induction l with
+  | nil => simp
+  | cons a r ih =>
+    simp only [List.map_cons, List.sum_cons, List.length_cons, ih]
+    rw [show ((r.length + 1 : Nat) : Int) = (r.length : Int) + 1 by omega, Int.add_mul]
+    omega
+
+/-- **salaryTotal_gt**: the two roundings withhold less than one precision unit (1 LEMO) per node of the term:
+    term reward − n · precision < Σ salaries. -/
+theorem salaryTotal_gt (p : Params) (hp : 0 < p.rewardPrecision) (total : Int)
+    (nodes : List (Nat × Int)) (hne : nodes ≠ []) (hv : ∀ n ∈ nodes, 0 ≤ n.2) :
+    total - (nodes.length : Int) * p.rewardPrecision < salaryTotal p total nodes := by
+  have hlen : 0 < (nodes.length : Int) := by
+    cases nodes with
+    | nil => exact absurd rfl hne
+    | cons _ _ => simp only [List.length_cons]; omega
+  unfold salaryTotal
+  by_cases htv : totalVotes nodes = 0
+  · have h1 : (nodes.map fun _ => total / (nodes.length : Int) - (p.rewardPrecision - 1)).sum ≤
+        (nodes.map fun n => calcSalary p total n.2 (totalVotes nodes) nodes.length).sum := by
+      apply sum_le_sum
+      intro n _
+      have := calcSalary_ge_raw p hp total n.2 (totalVotes nodes) nodes.length
+      rw [if_pos htv] at this
+      exact this
+    rw [sum_const] at h1
+    have h2 : total < (total / (nodes.length : Int) + 1) * (nodes.length : Int) := Int.lt_ediv_add_one_mul_self _ hlen
+    rw [Int.add_mul] at h2
+    have e : (nodes.length : Int) * (total / (nodes.length : Int) - (p.rewardPrecision - 1)) =
+        total / (nodes.length : Int) * (nodes.length : Int) - (nodes.length : Int) * p.rewardPrecision + (nodes.length : Int) := by
+      rw [Int.mul_sub, Int.mul_sub, Int.mul_comm]; omega
+    rw [e] at h1
+    omega
+  · have hnn : 0 ≤ totalVotes nodes := by
+      unfold totalVotes
+      exact sum_nonneg (·.2) nodes hv
+    have hpos : 0 < totalVotes nodes := by omega
+    have h1 : (nodes.map fun n => total * n.2 / totalVotes nodes - (p.rewardPrecision - 1)).sum ≤
+        (nodes.map fun n => calcSalary p total n.2 (totalVotes nodes) nodes.length).sum := by
+      apply sum_le_sum
+      intro n _
+      have := calcSalary_ge_raw p hp total n.2 (totalVotes nodes) nodes.length
+      rw [if_neg htv] at this
+      exact this
+    rw [sum_sub_const (fun n : Nat × Int => total * n.2 / totalVotes nodes) (p.rewardPrecision - 1) nodes] at h1
+    have h2 := floorShares_ge total (totalVotes nodes) hpos nodes
+    have h3 : (nodes.map (·.2)).sum = totalVotes nodes := rfl
+    rw [h3] at h2
+    have h4 : total * totalVotes nodes <
+        ((nodes.map fun n => total * n.2 / totalVotes nodes).sum + (nodes.length : Int)) * totalVotes nodes := by omega
+    have h5 : total < (nodes.map fun n => total * n.2 / totalVotes nodes).sum + (nodes.length : Int) :=
+      Int.lt_of_mul_lt_mul_right h4 (Int.le_of_lt hpos)
+    have e : (nodes.length : Int) * (p.rewardPrecision - 1) = (nodes.length : Int) * p.rewardPrecision - (nodes.length : Int) := by
+      rw [Int.mul_sub]; omega
+    rw [e] at h1
+    omega
+
+/-! ### the order of the refunds is irrelevant -/
+
+/-- what `Refund` of `a` with deposit `d` does to account `x` -/
+def refundAcct (pool a : Nat) (d : Int) (x : Nat) (acc : Acct) : Acct :=
+  { acc with bal := acc.bal - (if x = pool then d else 0) + (if x = a then d else 0),
+             deposit := if x = a then none else acc.deposit }
+
+theorem refund_accts (c : Ctx) (s : St) (a : Nat) (d : Int) (h : (s.accts a).deposit = some d) (x : Nat) :
+    (refund c s a).accts x = refundAcct c.p.pool a d x (s.accts x) := by
+  unfold refund refundAcct
+  rw [h]
+  simp only [modAcct, setBal, upd]
+  by_cases hxa : x = a
+  · subst hxa
+    by_cases hxp : x = c.p.pool
+    · simp [hxp]
+    · simp [hxp]
+  · by_cases hxp : x = c.p.pool
+    · subst hxp
+      simp [hxa]
+    · simp [hxa, hxp]
+
+theorem refund_none (c : Ctx) (s : St) (a : Nat) (h : (s.accts a).deposit = none) : refund c s a = s := by
+  unfold refund; rw [h]
+
+theorem St_ext (s t : St) (h : ∀ x, s.accts x = t.accts x) : s = t := by
+  cases s; cases t
+  simp only [St.mk.injEq]
+  funext x; exact h x
+
+theorem refundAcct_comm (pool a b : Nat) (da db : Int) (x : Nat) (acc : Acct) :
+    refundAcct pool a da x (refundAcct pool b db x acc) = refundAcct pool b db x (refundAcct pool a da x acc) := by
+  unfold refundAcct
+  simp only [Acct.mk.injEq, true_and, and_true]
+  constructor
+  · omega
+  · by_cases h1 : x = a <;> by_cases h2 : x = b <;> simp [h1, h2]
+
+/-- two refunds commute: the order in which `refundCandidateDeposit` walks the list (it comes out of a Go map) is irrelevant -/
+theorem refund_comm (c : Ctx) (s : St) (a b : Nat) :
+    refund c (refund c s b) a = refund c (refund c s a) b := by
+  by_cases hab : a = b
+  · subst hab; rfl
+  · have hba : b ≠ a := fun e => hab e.symm
+    have dA := refund_deposit_other c s b a hab
+    have dB := refund_deposit_other c s a b hba
+    cases ha : (s.accts a).deposit with
+    | none =>
+      rw [ha] at dA
+      rw [refund_none c (refund c s b) a dA, refund_none c s a ha]
+    | some da =>
+      cases hb : (s.accts b).deposit with
+      | none =>
+        rw [hb] at dB
+        rw [refund_none c s b hb, refund_none c (refund c s a) b dB]
+      | some db =>
+        rw [ha] at dA; rw [hb] at dB
+        apply St_ext
+        intro x
+        rw [refund_accts c _ a da dA, refund_accts c s b db hb, refund_accts c _ b db dB, refund_accts c s a da ha]
+        exact refundAcct_comm _ _ _ _ _ _ _
+
+/-- `Refund` reads the context only for the deposit pool's address -/
+theorem refundAll_ctx (c c' : Ctx) (h : c.p.pool = c'.p.pool) : ∀ (l : List Nat) (s : St),
+    refundAll c s l = refundAll c' s l := by
+  intro l
+  induction l with
+  | nil => intro s; rfl
+  | cons a as ih =>
+    intro s
+    simp only [refundAll]
+    have : refund c s a = refund c' s a := by unfold refund; rw [h]
+    rw [this, ih]
+
+theorem refundAll_eq_foldl (c : Ctx) : ∀ (l : List Nat) (s : St), refundAll c s l = l.foldl (refund c) s := by
+  intro l
+  induction l with
+  | nil => intro s; rfl
+  | cons a as ih => intro s; simp only [refundAll, List.foldl_cons]; exact ih _
+
+theorem refundAll_perm (c : Ctx) (l1 l2 : List Nat) (h : l1.Perm l2) : ∀ s, refundAll c s l1 = refundAll c s l2 := by
+  intro s
+  rw [refundAll_eq_foldl, refundAll_eq_foldl]
+  induction h generalizing s with
+  | nil => rfl
+  | cons x _ ih => simp only [List.foldl_cons]; exact ih _
+  | swap x y l => simp only [List.foldl_cons]; rw [refund_comm]
+  | trans _ _ ih1 ih2 => rw [ih1, ih2]
 
 end LemoProofs.LedgerReward
